@@ -174,5 +174,6 @@ def run_case(case, ctx):
         if len(spec["ops"]) >= 3 and len(kinds) >= 2 and "fit" in kinds and kinds & {"sample", "sample_cont", "statistics"}:
             ctx.mark_nontrivial(monitors.digest(spec))
         ctx.seen("seeds", spec["seed"])
+        ctx.seen("seeding_call_forms", spec.get("seed_form"))
         ctx.seen("op_kinds", tuple(sorted(kinds)))
     ctx.sample({"case": case, "history": specs[0]})
